@@ -554,6 +554,14 @@ pub fn types() -> Vec<TypeCase> {
             let s1 = if r.chance(1, 2) { "\\u0031\\u0032".to_string() } else { "a\\\"b\\n".to_string() };
             format!("[\"{}\", {}, \"{}\" ,{},{}]", s1, (r.next() as i64 as i128) << r.below(60), "\\u0039\\t", (r.next() as u128) << r.below(60), r.next())
         }),
+        tc!("BTreeMap<ByteBuf,u8>", BTreeMap<serde_bytes::ByteBuf, u8>, |r| {
+            let mut g = doc::Gen::new(r, doc::DocOpts::default());
+            g.out.push(b'{');
+            let t = g.text();
+            g.write_string(&t);
+            g.out.extend_from_slice(b":7}");
+            String::from_utf8(g.out).unwrap()
+        }),
         tc!("Known+skipped", Known, |r| {
             // the skipped member holds a number shape, a hostile literal or a whole document
             let v = match r.below(4) {
@@ -608,7 +616,7 @@ pub fn types() -> Vec<TypeCase> {
 }
 
 /// generic texts every type is confronted with
-fn generic(r: &mut Rng) -> String {
+pub fn generic(r: &mut Rng) -> String {
     // strings whose text is echoed by type-mismatch / unknown-variant / unknown-field errors,
     // including fragments that look like the library's own position suffixes
     let echoed = |r: &mut Rng| -> String {
